@@ -48,35 +48,43 @@ theorem paySynthWl_active (i : WlInfo) (now : Nat) : (paySynthWl i now).active n
 
 /-! ## the two descriptions of price, fee and payout agree -/
 
+theorem networkFee_eq (p : Params) (isAdmin : Bool) (price : Coin) :
+    MintPay.networkFee (payFactory p) isAdmin price = networkFee p isAdmin price := by
+  unfold MintPay.networkFee MintPay.feeBps networkFee
+  simp only [payFactory]
+
 theorem mintMsgs_eq {p : Params} (s : State) {m : Minter} {isAdmin : Bool} {price : Coin} {ms : List Msg}
     (h : mintMsgs p m isAdmin price = .ok ms) :
     MintPay.splitMsgs payVariant (payFactory p) (payMinter s m) isAdmin price = .ok ms := by
   unfold mintMsgs at h
-  have hfee : MintPay.networkFee (payFactory p) isAdmin price = networkFee p isAdmin price := by
-    unfold MintPay.networkFee MintPay.feeBps networkFee payFactory; rfl
+  have hfee := networkFee_eq p isAdmin price
   have hdev : MintPay.devOf payVariant (payFactory p) = some (p.dev.getD LAUNCHPAD_DAO) := rfl
   have hsel : MintPay.sellerOf payVariant (payMinter s m) = m.paymentAddress.getD m.admin := rfl
   have hft : MintPay.featuredOf payVariant = false := rfl
   unfold MintPay.splitMsgs MintPay.splitWith MintPay.feeMsgs MintPay.sellerMsgs
   rw [hfee, hdev, hsel, hft]
   simp only [seller] at h
-  by_cases hz : networkFee p isAdmin price = 0
-  · simp only [hz, if_true] at h ⊢
+  generalize networkFee p isAdmin price = fee at h ⊢
+  by_cases hz : fee = 0
+  · subst hz
+    simp only [if_true] at h ⊢
     split at h
     · cases h
     · rename_i hle
       cases h
-      simp [hle]
+      rw [if_neg hle]
   · simp only [hz, if_false] at h ⊢
     cases hd : p.dev with
-    | none => simp [hd] at h
+    | none => rw [hd] at h; cases h
     | some d =>
-      simp only [hd] at h
+      rw [hd] at h
+      simp only at h
       split at h
       · cases h
       · rename_i hle
         cases h
-        simp [hle]
+        rw [if_neg hle]
+        rfl
 
 theorem mintPrice_eq {s : State} {m : Minter} {isAdmin : Bool} {price : Coin} (h : mintPrice s m isAdmin = .ok price) :
     MintPay.selectPrice payVariant (payFactory s.params) (payMinter s m) s.now isAdmin = .ok price := by
